@@ -177,6 +177,7 @@ theorem other_core {s s' : QState} {ev : Ev} (h : step s ev = some s')
   | clone => simp only [step] at h; split at h <;> cases h; rfl
   | dropHandle => simp only [step] at h; split at h <;> cases h; rfl
   | forget => simp only [step] at h; split at h <;> cases h; rfl
+  | setSubscriber b => simp only [step] at h; cases h; rfl
   | dropJoinBegin => simp only [step] at h; split at h <;> cases h; rfl
   | dropJoinUnpark => simp only [step] at h; split at h <;> cases h; rfl
   | dropJoinEnd =>
@@ -202,7 +203,7 @@ observations that are neither `next` nor `report`. Static configuration never ch
 theorem step_log {s s' : QState} {ev : Ev} (h : step s ev = some s') :
     ((∃ c e, ev = .w c ∧ holding s.wpc = [e] ∧ s'.log = s.log ++ consumeObs s c e) ∨
      (∃ added, s'.log = s.log ++ added ∧ ∀ o ∈ added, o.isNextOrReport = false)) ∧
-    s'.res = s.res ∧ s'.noSubscriber = s.noSubscriber ∧ s'.cap = s.cap := by
+    s'.res = s.res ∧ ((∀ b, ev ≠ .setSubscriber b) → s'.noSubscriber = s.noSubscriber) ∧ s'.cap = s.cap := by
   cases ev with
   | push p =>
     obtain ⟨hpc, _, _, hcap, _⟩ := push_core h
@@ -210,47 +211,50 @@ theorem step_log {s s' : QState} {ev : Ev} (h : step s ev = some s') :
     split at h
     · cases h
     · split at h <;> cases h
-      · exact ⟨.inr ⟨[], by simp, by simp⟩, rfl, rfl, rfl⟩
-      · exact ⟨.inr ⟨[_], rfl, by simp [Obs.isNextOrReport]⟩, rfl, rfl, rfl⟩
+      · exact ⟨.inr ⟨[], by simp, by simp⟩, rfl, fun _ => rfl, rfl⟩
+      · exact ⟨.inr ⟨[_], rfl, by simp [Obs.isNextOrReport]⟩, rfl, fun _ => rfl, rfl⟩
   | unpark p =>
     simp only [step] at h; split at h <;> cases h
-    exact ⟨.inr ⟨[], by simp, by simp⟩, rfl, rfl, rfl⟩
+    exact ⟨.inr ⟨[], by simp, by simp⟩, rfl, fun _ => rfl, rfl⟩
   | flushSend =>
     simp only [step] at h
     split at h <;> cases h
-    · exact ⟨.inr ⟨[_], rfl, by simp [Obs.isNextOrReport]⟩, rfl, rfl, rfl⟩
-    · exact ⟨.inr ⟨[], by simp, by simp⟩, rfl, rfl, rfl⟩
+    · exact ⟨.inr ⟨[_], rfl, by simp [Obs.isNextOrReport]⟩, rfl, fun _ => rfl, rfl⟩
+    · exact ⟨.inr ⟨[], by simp, by simp⟩, rfl, fun _ => rfl, rfl⟩
   | flushUnpark i =>
     simp only [step] at h; split at h <;> cases h
-    exact ⟨.inr ⟨[], by simp, by simp⟩, rfl, rfl, rfl⟩
+    exact ⟨.inr ⟨[], by simp, by simp⟩, rfl, fun _ => rfl, rfl⟩
   | clone =>
     simp only [step] at h; split at h <;> cases h
-    exact ⟨.inr ⟨[], by simp, by simp⟩, rfl, rfl, rfl⟩
+    exact ⟨.inr ⟨[], by simp, by simp⟩, rfl, fun _ => rfl, rfl⟩
   | dropHandle =>
     simp only [step] at h; split at h <;> cases h
-    exact ⟨.inr ⟨[], by simp, by simp⟩, rfl, rfl, rfl⟩
+    exact ⟨.inr ⟨[], by simp, by simp⟩, rfl, fun _ => rfl, rfl⟩
   | forget =>
     simp only [step] at h; split at h <;> cases h
-    exact ⟨.inr ⟨[], by simp, by simp⟩, rfl, rfl, rfl⟩
+    exact ⟨.inr ⟨[], by simp, by simp⟩, rfl, fun _ => rfl, rfl⟩
+  | setSubscriber b =>
+    simp only [step] at h; cases h
+    exact ⟨.inr ⟨[], by simp, by simp⟩, rfl, fun hb => absurd rfl (hb b), rfl⟩
   | dropJoinBegin =>
     simp only [step] at h; split at h <;> cases h
-    exact ⟨.inr ⟨[], by simp, by simp⟩, rfl, rfl, rfl⟩
+    exact ⟨.inr ⟨[], by simp, by simp⟩, rfl, fun _ => rfl, rfl⟩
   | dropJoinUnpark =>
     simp only [step] at h; split at h <;> cases h
-    exact ⟨.inr ⟨[], by simp, by simp⟩, rfl, rfl, rfl⟩
+    exact ⟨.inr ⟨[], by simp, by simp⟩, rfl, fun _ => rfl, rfl⟩
   | dropJoinEnd =>
     simp only [step] at h; split at h <;> cases h
-    exact ⟨.inr ⟨[_], rfl, by simp [Obs.isNextOrReport]⟩, rfl, rfl, rfl⟩
+    exact ⟨.inr ⟨[_], rfl, by simp [Obs.isNextOrReport]⟩, rfl, fun _ => rfl, rfl⟩
   | w c =>
     simp only [step] at h
     unfold wstep at h
     split at h
-    · split at h <;> cases h <;> exact ⟨.inr ⟨[], by simp, by simp⟩, rfl, rfl, rfl⟩
+    · split at h <;> cases h <;> exact ⟨.inr ⟨[], by simp, by simp⟩, rfl, fun _ => rfl, rfl⟩
     · rename_i e n hpc
       cases h
-      exact ⟨.inl ⟨c, e, rfl, by simp [holding, hpc], rfl⟩, rfl, rfl, rfl⟩
+      exact ⟨.inl ⟨c, e, rfl, by simp [holding, hpc], rfl⟩, rfl, fun _ => rfl, rfl⟩
     · cases h
-      refine ⟨.inr ⟨_, by rw [List.append_assoc], ?_⟩, rfl, rfl, rfl⟩
+      refine ⟨.inr ⟨_, by rw [List.append_assoc], ?_⟩, rfl, fun _ => rfl, rfl⟩
       intro o ho
       rcases List.mem_append.mp ho with h1 | h1
       · split at h1
@@ -258,25 +262,25 @@ theorem step_log {s s' : QState} {ev : Ev} (h : step s ev = some s') :
         · simp at h1
       · exact completed_not_next _ _ o h1
     · split at h
-      · cases h; exact ⟨.inr ⟨[], by simp, by simp⟩, rfl, rfl, rfl⟩
+      · cases h; exact ⟨.inr ⟨[], by simp, by simp⟩, rfl, fun _ => rfl, rfl⟩
       · split at h
-        · cases h; exact ⟨.inr ⟨[], by simp, by simp⟩, rfl, rfl, rfl⟩
-        · split at h <;> cases h <;> exact ⟨.inr ⟨[], by simp, by simp⟩, rfl, rfl, rfl⟩
+        · cases h; exact ⟨.inr ⟨[], by simp, by simp⟩, rfl, fun _ => rfl, rfl⟩
+        · split at h <;> cases h <;> exact ⟨.inr ⟨[], by simp, by simp⟩, rfl, fun _ => rfl, rfl⟩
     · split at h
-      · cases h; exact ⟨.inr ⟨[], by simp, by simp⟩, rfl, rfl, rfl⟩
+      · cases h; exact ⟨.inr ⟨[], by simp, by simp⟩, rfl, fun _ => rfl, rfl⟩
       · split at h
-        · cases h; exact ⟨.inr ⟨[], by simp, by simp⟩, rfl, rfl, rfl⟩
+        · cases h; exact ⟨.inr ⟨[], by simp, by simp⟩, rfl, fun _ => rfl, rfl⟩
         · cases h
-    · split at h <;> cases h <;> exact ⟨.inr ⟨[], by simp, by simp⟩, rfl, rfl, rfl⟩
-    · cases h; exact ⟨.inr ⟨[_], rfl, by simp [Obs.isNextOrReport]⟩, rfl, rfl, rfl⟩
-    · split at h <;> cases h <;> exact ⟨.inr ⟨[], by simp, by simp⟩, rfl, rfl, rfl⟩
-    · split at h <;> cases h <;> exact ⟨.inr ⟨[], by simp, by simp⟩, rfl, rfl, rfl⟩
-    · split at h <;> cases h <;> exact ⟨.inr ⟨[], by simp, by simp⟩, rfl, rfl, rfl⟩
+    · split at h <;> cases h <;> exact ⟨.inr ⟨[], by simp, by simp⟩, rfl, fun _ => rfl, rfl⟩
+    · cases h; exact ⟨.inr ⟨[_], rfl, by simp [Obs.isNextOrReport]⟩, rfl, fun _ => rfl, rfl⟩
+    · split at h <;> cases h <;> exact ⟨.inr ⟨[], by simp, by simp⟩, rfl, fun _ => rfl, rfl⟩
+    · split at h <;> cases h <;> exact ⟨.inr ⟨[], by simp, by simp⟩, rfl, fun _ => rfl, rfl⟩
+    · split at h <;> cases h <;> exact ⟨.inr ⟨[], by simp, by simp⟩, rfl, fun _ => rfl, rfl⟩
     · rename_i e n hpc
       cases h
-      exact ⟨.inl ⟨c, e, rfl, by simp [holding, hpc], rfl⟩, rfl, rfl, rfl⟩
+      exact ⟨.inl ⟨c, e, rfl, by simp [holding, hpc], rfl⟩, rfl, fun _ => rfl, rfl⟩
     · cases h
-      refine ⟨.inr ⟨_, by rw [List.append_assoc], ?_⟩, rfl, rfl, rfl⟩
+      refine ⟨.inr ⟨_, by rw [List.append_assoc], ?_⟩, rfl, fun _ => rfl, rfl⟩
       intro o ho
       rcases List.mem_append.mp ho with h1 | h1
       · simp at h1; rcases h1 with rfl | rfl <;> rfl
